@@ -111,12 +111,107 @@ theorem shipped_tokens_in_position_order (E : Env) (src : List Nat) (hfin : (tok
     ∀ t ∈ (tokenize E XV.Driver.genPats src).toks, t.start ≤ t.stop :=
   tokens_in_position_order E _ gen_pseudo_progress gen_fstr_len src hfin
 
-/-- **C08 (text), instantiated on the working tree's patterns**: every token except FSTRING_END and the scanner's brace
-    operators is the source text between its coordinates. -/
+/-! ### C08: every match of the f-string scanners ends with the delimiter it reports (hypothesis `FstrEnds`) -/
+
+theorem lookupPat_endsWith (l : List (String × Re)) (w : List Nat) (h : l.all (fun b => endsWith b.2 w) = true) (q : String) :
+    endsWith (lookupPat l q) w = true := by
+  unfold lookupPat
+  cases hf : l.find? (·.1 = q) with
+  | none => cases w <;> simp [endsWith]
+  | some b =>
+    obtain ⟨n, r⟩ := b
+    simp only []
+    have hmem := List.mem_of_find?_eq_some hf
+    rw [List.all_eq_true] at h
+    exact h _ hmem
+
+theorem fstring_scanners_end_with_delimiter :
+    XV.Gen.startLBrace.all (fun b => endsWith b.2 [123]) = true ∧ endsWith XV.Gen.endRBrace [125] = true ∧
+    XV.Gen.endpats.all (fun b => endsWith b.2 (b.1.toList.map Char.toNat)) = true := by
+  decide +kernel
+
+/-- a one-character key of the quote table -/
+theorem strOfCps_single_eq (c : Nat) (k : Char) (h : strOfCps [c] = String.singleton k) (hk : k.toNat ≠ 0) : c = k.toNat := by
+  unfold strOfCps at h
+  have h2 : [Char.ofNat c] = [k] := by
+    have := congrArg String.toList h
+    simpa using this
+  injection h2 with h2
+  rw [← h2] at hk ⊢
+  unfold Char.ofNat at hk ⊢
+  split
+  · rfl
+  · rename_i hv; simp [hv] at hk
+
+theorem gen_fstr_ends : FstrEnds XV.Driver.genPats := by
+  obtain ⟨h1, h2, h3⟩ := fstring_scanners_end_with_delimiter
+  refine ⟨fun q => lookupPat_endsWith _ _ h1 q, h2, ?_⟩
+  intro tok
+  -- whatever the table holds for key `q` ends with the characters of `q`
+  have key : ∀ (q : String) (w : List Nat), (∀ b ∈ XV.Gen.endpats, b.1 = q → q.toList.map Char.toNat = w) →
+      endsWith (lookupPat XV.Driver.genPats.endpats q) w = true := by
+    intro q w hq
+    show endsWith (lookupPat XV.Gen.endpats q) w = true
+    unfold lookupPat
+    cases hf : XV.Gen.endpats.find? (·.1 = q) with
+    | none => cases w <;> simp [endsWith]
+    | some b =>
+      obtain ⟨n, r⟩ := b
+      simp only []
+      have hmem := List.mem_of_find?_eq_some hf
+      have hn : n = q := by simpa using List.find?_some hf
+      rw [List.all_eq_true] at h3
+      have := h3 _ hmem
+      simp only [] at this
+      rw [hn, hq _ hmem hn] at this
+      exact this
+  unfold quoteOf
+  simp only []
+  split
+  · rename_i hq
+    simp only [Bool.or_eq_true, decide_eq_true_eq] at hq
+    rcases hq with hq | hq
+    · rw [hq]; exact key _ _ (by intro b _ _; decide)
+    · rw [hq]; exact key _ _ (by intro b _ _; decide)
+  · cases hd : tok.drop (tok.length - 1) with
+    | nil => cases lookupPat XV.Driver.genPats.endpats (strOfCps []) <;> simp [endsWith]
+    | cons c rest =>
+      have hlen : (tok.drop (tok.length - 1)).length ≤ 1 := by rw [List.length_drop]; omega
+      rw [hd] at hlen
+      have hrest : rest = [] := by
+        cases rest with
+        | nil => rfl
+        | cons x xs => simp at hlen
+      subst hrest
+      apply key
+      intro b hb hbq
+      have hkeys := quotes_covered.1
+      have hb1 : b.1 ∈ XV.Gen.endpats.map (·.1) := List.mem_map_of_mem hb
+      rw [hkeys] at hb1
+      simp only [List.mem_cons, List.not_mem_nil, or_false] at hb1
+      rcases hb1 with h | h | h | h
+      · rw [h] at hbq
+        have := strOfCps_single_eq c '\'' hbq.symm (by decide)
+        rw [this]; decide
+      · rw [h] at hbq
+        have := strOfCps_single_eq c '"' hbq.symm (by decide)
+        rw [this]; decide
+      · exfalso
+        rw [h] at hbq
+        have := congrArg String.length hbq
+        simp [strOfCps] at this
+        exact absurd this (by decide)
+      · exfalso
+        rw [h] at hbq
+        have := congrArg String.length hbq
+        simp [strOfCps] at this
+        exact absurd this (by decide)
+
+/-- **C08 (text), instantiated on the working tree's patterns**: on every text the tokenizer model finishes on, every
+    token is the source text between its coordinates. -/
 theorem shipped_tokens_are_source_slices (E : Env) (src : List Nat) (hfin : (tokenize E XV.Driver.genPats src).err = none) :
-    ∀ t ∈ (tokenize E XV.Driver.genPats src).toks, t.ty ≠ .FSTRING_END → ¬ (t.ty = .OP ∧ (t.str = [123] ∨ t.str = [125])) →
-      t.str = srcText (splitLines src []) t.start t.stop :=
-  all_tokens_but_fstring_delimiters_are_source_slices E _ gen_pseudo_progress gen_fstr_len src hfin
+    ∀ t ∈ (tokenize E XV.Driver.genPats src).toks, t.str = srcText (splitLines src []) t.start t.stop :=
+  all_tokens_are_source_slices E _ gen_pseudo_progress gen_fstr_len gen_fstr_ends src hfin
 
 /-- Non-vacuity on the shipped patterns: `f"a{x:>{w}}b{f'{y}'}"⏎` finishes with 18 tokens, f-string parts included. -/
 example : (tokenize ⟨[], []⟩ XV.Driver.genPats ("f\"a{x:>{w}}b{f'{y}'}\"\n".toList.map Char.toNat)).err = none ∧
